@@ -18,7 +18,7 @@ import (
 // TNode is the generator's own tree; the library's nodes are built from it for every pass,
 // and a traversal model over it predicts the exact callback sequences.
 type TNode struct {
-	Kind int      `json:"kind"` // 0 terminal, 1 empty, 2 non-terminal
+	Kind int      `json:"kind"` // 0 terminal, 1 empty, 2 non-terminal, 4 user-defined Walkable + StaticCheckable node
 	Caps int      `json:"caps"` // non-terminal: bit0 checker, bit1 transformer; 4 = interpreter.Select(Sel); 5 = interpreter.Array()
 	Sel  int      `json:"sel,omitempty"`
 	Kids []*TNode `json:"kids,omitempty"`
@@ -41,6 +41,13 @@ func (n *TNode) String() string {
 	case 1:
 		return "ε"
 	}
+	if n.Kind == 4 {
+		parts := make([]string, len(n.Kids))
+		for i, k := range n.Kids {
+			parts[i] = k.String()
+		}
+		return fmt.Sprintf("Block(%s)", strings.Join(parts, " "))
+	}
 	parts := make([]string, len(n.Kids))
 	for i, k := range n.Kids {
 		parts[i] = k.String()
@@ -60,6 +67,13 @@ func genTNode(t *rapid.T, depth int) *TNode {
 	}
 	if k == 1 {
 		return &TNode{Kind: 1}
+	}
+	if rapid.IntRange(0, 9).Draw(t, "block") == 0 {
+		n := &TNode{Kind: 4}
+		for i := rapid.IntRange(0, 3).Draw(t, "nk"); i > 0; i-- {
+			n.Kids = append(n.Kids, genTNode(t, depth-1))
+		}
+		return n
 	}
 	n := &TNode{Kind: 2, Caps: rapid.SampledFrom([]int{0, 1, 1, 2, 3, 4, 5}).Draw(t, "caps")}
 	nk := rapid.IntRange(0, 4).Draw(t, "nk")
@@ -174,6 +188,41 @@ func (c bothI) TransformNode(userCtx interface{}, node parsley.Node) (parsley.No
 	return transI{c.baseI}.TransformNode(userCtx, node)
 }
 
+// blockNode is a user-defined node: not a NonTerminalNode (the library cannot see its children),
+// but Walkable (it walks them itself) and StaticCheckable.
+type blockNode struct {
+	e         *env13
+	id        int
+	kids      []parsley.Node
+	pos, rpos parsley.Pos
+	schema    interface{}
+}
+
+func (b *blockNode) Token() string          { return "BLOCK" }
+func (b *blockNode) Schema() interface{}    { return b.schema }
+func (b *blockNode) Pos() parsley.Pos       { return b.pos }
+func (b *blockNode) ReaderPos() parsley.Pos { return b.rpos }
+func (b *blockNode) Walk(f func(n parsley.Node) bool) bool {
+	for _, k := range b.kids {
+		if parsley.Walk(k, f) {
+			return true
+		}
+	}
+	return false
+}
+func (b *blockNode) StaticCheck(userCtx interface{}) parsley.Error {
+	var cs []string
+	for _, ch := range b.kids {
+		cs = append(cs, fmt.Sprint(ch.Schema()))
+	}
+	b.e.log = append(b.e.log, fmt.Sprintf("check %d [%s]", b.id, strings.Join(cs, ",")))
+	if b.e.failCheck == b.id {
+		return parsley.NewError(b.pos, errors.New("check failed"))
+	}
+	b.schema = fmt.Sprintf("S%d", b.id)
+	return nil
+}
+
 // number assigns pre-order ids.
 func numberT(n *TNode, next *int) {
 	n.id = *next
@@ -191,6 +240,13 @@ func buildT(n *TNode, e *env13, pos *int) parsley.Node {
 		*pos++
 	case 1:
 		out = ast.EmptyNode(*pos)
+	case 4:
+		blk := &blockNode{e: e, id: n.id, pos: parsley.Pos(*pos)}
+		for _, k := range n.Kids {
+			blk.kids = append(blk.kids, buildT(k, e, pos))
+		}
+		blk.rpos = parsley.Pos(*pos)
+		out = blk
 	default:
 		start := *pos
 		var kids []parsley.Node
@@ -327,8 +383,12 @@ func checkC13(ci interface{}, st *Stats) (err error) {
 	if stopped != (stopAt >= 0) {
 		return fmt.Errorf("Walk returned %v, the callback returned true: %v", stopped, stopAt >= 0)
 	}
-	if listVisits > 1 {
-		return fmt.Errorf("the root list was visited %d times", listVisits)
+	wantList := 0
+	if c.Alts > 0 && stopAt < 0 {
+		wantList = 1 // the list itself is a node: visited once, after its first alternative
+	}
+	if listVisits != wantList {
+		return fmt.Errorf("the root list was visited %d times, want %d", listVisits, wantList)
 	}
 	if stopAt >= 0 && stopAt < total-1 {
 		abortDeep = true
@@ -340,7 +400,7 @@ func checkC13(ci interface{}, st *Stats) (err error) {
 		postOrder(model, &post)
 		var checkers []*TNode
 		for _, n := range post {
-			if n.Kind == 2 && (n.Caps == 1 || n.Caps == 3) {
+			if n.Kind == 2 && (n.Caps == 1 || n.Caps == 3) || n.Kind == 4 {
 				checkers = append(checkers, n)
 			}
 		}
@@ -363,14 +423,18 @@ func checkC13(ci interface{}, st *Stats) (err error) {
 		wantErr := false
 		aborted := map[int]bool{}
 		for _, n := range post {
-			if n.Kind != 2 {
+			if n.Kind != 2 && n.Kind != 4 {
 				continue
 			}
 			if wantErr {
 				aborted[n.id] = true
 				continue
 			}
-			switch n.Caps {
+			caps := n.Caps
+			if n.Kind == 4 {
+				caps = 1
+			}
+			switch caps {
 			case 1, 3:
 				var cs []string
 				for _, k := range n.Kids {
@@ -401,7 +465,7 @@ func checkC13(ci interface{}, st *Stats) (err error) {
 			return fmt.Errorf("%s: checker calls\n  %v\nthe bottom-up order with final child schemas is\n  %v", label, e.log, wantLog)
 		}
 		for _, n := range post {
-			if n.Kind == 2 && !aborted[n.id] {
+			if (n.Kind == 2 || n.Kind == 4) && !aborted[n.id] {
 				if b := e.built[n.id]; b != nil && fmt.Sprint(b.Schema()) != fmt.Sprint(final[n.id]) {
 					return fmt.Errorf("%s: schema of node %d is %v, want %v", label, n.id, b.Schema(), final[n.id])
 				}
@@ -422,7 +486,7 @@ func checkC13(ci interface{}, st *Stats) (err error) {
 	var transformers []*TNode
 	var reach func(n *TNode)
 	reach = func(n *TNode) {
-		if n.Kind != 2 {
+		if n.Kind != 2 { // terminals, empties and user-defined blocks are not transformable
 			return
 		}
 		if n.Caps == 2 || n.Caps == 3 {
@@ -458,6 +522,24 @@ func checkC13(ci interface{}, st *Stats) (err error) {
 		return true
 	}
 	okWant := tw(c.Root)
+	// plainShape: the untransformed shape (what stays below a block)
+	var plainShape func(n *TNode) string
+	plainShape = func(n *TNode) string {
+		switch n.Kind {
+		case 0:
+			return fmt.Sprintf("X=v%d", n.id)
+		case 1:
+			return "EMPTY"
+		}
+		parts := make([]string, len(n.Kids))
+		for i, k := range n.Kids {
+			parts[i] = plainShape(k)
+		}
+		if n.Kind == 4 {
+			return "BLOCK[" + strings.Join(parts, " ") + "]"
+		}
+		return "NT[" + strings.Join(parts, " ") + "]"
+	}
 	var wantShape func(n *TNode) string
 	wantShape = func(n *TNode) string {
 		switch n.Kind {
@@ -465,6 +547,12 @@ func checkC13(ci interface{}, st *Stats) (err error) {
 			return fmt.Sprintf("X=v%d", n.id)
 		case 1:
 			return "EMPTY"
+		case 4:
+			parts := make([]string, len(n.Kids))
+			for i, k := range n.Kids {
+				parts[i] = plainShape(k)
+			}
+			return "BLOCK[" + strings.Join(parts, " ") + "]"
 		}
 		if n.Caps == 2 || n.Caps == 3 {
 			return fmt.Sprintf("T=t%d", n.id)
@@ -482,6 +570,12 @@ func checkC13(ci interface{}, st *Stats) (err error) {
 			return fmt.Sprintf("%s=%v", v.Token(), v.Value())
 		case ast.EmptyNode:
 			return "EMPTY"
+		case *blockNode:
+			parts := make([]string, len(v.kids))
+			for i, k := range v.kids {
+				parts[i] = gotShape(k)
+			}
+			return "BLOCK[" + strings.Join(parts, " ") + "]"
 		case *ast.NonTerminalNode:
 			parts := make([]string, len(v.Children()))
 			for i, k := range v.Children() {
@@ -528,8 +622,8 @@ func checkC13(ci interface{}, st *Stats) (err error) {
 			switch n.Kind {
 			case 0:
 				return true
-			case 1:
-				return false // an empty node has no value
+			case 1, 4:
+				return false // an empty node and a user-defined block have no value
 			}
 			if n.Caps == 4 {
 				return ev(n.Kids[n.Sel])
@@ -594,6 +688,9 @@ func checkC13(ci interface{}, st *Stats) (err error) {
 			tm = func(n *TNode) *TNode {
 				if n.Kind == 2 && (n.Caps == 2 || n.Caps == 3) {
 					return &TNode{Kind: 3, id: n.id}
+				}
+				if n.Kind == 4 {
+					return n // nothing below a block is transformed
 				}
 				cp := &TNode{Kind: n.Kind, Caps: n.Caps, Sel: n.Sel, id: n.id}
 				for _, k := range n.Kids {
